@@ -4,9 +4,13 @@ package dtlcp
 
 // C17: the real fragmentBuffer against a reference reassembler (covered set + original bytes).
 //
-//verif:harness props=C17,C09 paths=400000 tpaths=3000000 reach=complete,incomplete,refused
+//verif:harness props=C17,C09 paths=800000 tpaths=4000000 reach=complete,incomplete,refused
 func VerifHarness_C17_buffer() {
 	total := verifSplitInt("total", 1, verifBound(5, 9))
+	if verifSplitInt("long", 0, 1) == 1 {
+		// two longer messages (more than one bitmap byte, fragments of 8 bytes and more) with at most 2 fragments
+		total = []int{10, 13}[verifSplitInt("longTotal", 0, 1)]
+	}
 	orig := verifNondetBytes("orig", total)
 	fb := newFragmentBuffer(uint24(total))
 	var covered [16]bool
